@@ -276,7 +276,7 @@ type world struct {
 func allowedStateKey(ex, key string) bool { return strings.HasPrefix(key, "mavl-"+ex+"-") }
 
 // runLocal interprets the Local phase against view; returns ok=false when the phase makes the transaction fail.
-// direct collects the keys Set directly (what the framework compares with the returned set).
+// touched collects the local keys the phase Set (for the non-triviality rule); reads reports what it read.
 func runLocal(p vx.Program, view localView, touched map[string]bool, reads func(k string, prefix bool)) bool {
 	var returned [][2]string
 	direct := false
